@@ -133,6 +133,12 @@ def finish(prop, results, t0, seed, tier, level="proof", extra_cov=None, assumpt
             # engine cannot model the call tree: undecided here (the bounded cross-check still runs)
             o["status"] = "undecided"
             undecided.append(o)
+        elif o.get("kind") == "pin":
+            # the code moved INSIDE a declared band (where the property cannot be decided offline): neither a
+            # violation nor a pass
+            o["status"] = "undecided"
+            o["backend"] = f"{o['backend']}; verdict differs from the reading pinned at build time, witness {o.get('witness')}"
+            undecided.append(o)
         elif det.startswith("NOWITNESS"):
             # refuted only under an abstraction (uninterpreted spec function / opaque input) and no concrete input
             # found: the abstraction may be too coarse, so this is undecided, never a violation
